@@ -64,7 +64,7 @@ func runC12(opt *Options) int {
 	}
 	// enum settings written on a method that does not convert an enum to an enum are reported where they stand
 	for _, c := range layerb.FamilyEnum(false) {
-		if c.ExpectFail && strings.Contains(c.ID, "enum/fail_mapping_on_") {
+		if c.ExpectFail && (strings.Contains(c.ID, "enum/fail_mapping_on_") || strings.Contains(c.ID, "enum/fail_map_three_fields")) {
 			sib = append(sib, c)
 		}
 	}
